@@ -2,6 +2,8 @@
 
 package dkv
 
+import "reduction.dev/reduction/dkv/sst"
+
 // Accessors for the C07/C18 verification harness (read-only views of unexported state).
 
 // VerifC07MemtableCount returns the number of memtables in the queue (sealed + the active one).
@@ -29,4 +31,17 @@ func (db *DB) VerifC07TableNames() []string {
 // that the harness learns when a compaction task that ended with an error has finished.
 func (db *DB) VerifC07EnqueueCompaction(fn func() error) {
 	db.tasks.Enqueue(compactionQueue, fn)
+}
+
+// VerifC07Tables returns the tables of the current level list, per level in list order.
+func (db *DB) VerifC07Tables() [][]*sst.Table {
+	var out [][]*sst.Table
+	for level := range db.currentSSTables().DescendLevels() {
+		var l []*sst.Table
+		for t := range level.AllTables() {
+			l = append(l, t)
+		}
+		out = append(out, l)
+	}
+	return out
 }
